@@ -67,7 +67,7 @@ def inventory(prog) -> list[dict]:
             return const_text(m.consts[e.id]) if e.id in m.consts else "{" + e.id + "}"
         return "{?}"
     global_cat = None
-    for k, v in m.consts.items():
+    for k, v, _stmt in m.text_sources():
         txt = const_text(v)
         if re.search(r"create\s+table", txt, re.I):
             stmts = sqlt.split_statements(sqlt.tokenize(txt))
@@ -219,12 +219,11 @@ def listings(prog):
                     out.append((label + ("" if curdb else " [no current database]"), "transforms", "show_*", src, parse_eff[-1][4] if parse_eff else None))
     # views created by the bootstrap
     m = prog.mod("info_schema")
-    for k, v in m.consts.items():
-        if isinstance(v, ast.Call) and v.args and isinstance(v.args[0], ast.Constant) and isinstance(v.args[0].value, str):
-            txt = v.args[0].value
+    for k, txt, stmt_ in m.sql_templates():
+        if True:
             if re.search(r"create\s+view", txt, re.I) and re.search(r"\bwhere\b", txt, re.I):
                 i = re.search(r"\bselect\b", txt, re.I).start()
-                out.append((f"view {k}", "info_schema", k, Const(txt[i:].replace("${catalog}", "CURDBVIEW")), m.const_stmts[k]))
+                out.append((f"view {k}", "info_schema", k, Const(re.sub(r"\$\{catalog\}", "CURDBVIEW", txt[i:])), stmt_))
     return out
 
 
@@ -285,8 +284,7 @@ def rule_hidden(ctx):
                                                for c in ast.walk(fnode))
         # the columns view itself may filter
         if "columns" in view:
-            txt = next((v.args[0].value for k, v in prog.mod("info_schema").consts.items()
-                        if isinstance(v, ast.Call) and v.args and isinstance(v.args[0], ast.Constant) and "_fs_columns_snowflake" in str(v.args[0].value)), "")
+            txt = next((t_ for _k, t_, _s in prog.mod("info_schema").sql_templates() if "_fs_columns_snowflake" in t_ and "create" in t_.lower()), "")
             has_filter = has_filter or bool(re.search(r"where[^;]*_fs_", txt, re.I | re.S))
         ctx.ob("C09.a", f"user query on {view}: internal _fs_* objects are filtered out", has_filter, "fakesnow/transforms.py")
         if not has_filter:
@@ -378,15 +376,14 @@ def rule_keys(ctx):
     m = prog.mod("info_schema")
     ctx.analysed("info_schema.insert_table_comment_sql", "info_schema.insert_text_lengths_sql", "transforms.information_schema_fs_tables_ext")
     tables = {}
-    for k, v in m.consts.items():
-        if isinstance(v, ast.Call) and v.args and isinstance(v.args[0], ast.Constant) and isinstance(v.args[0].value, str):
-            txt = v.args[0].value
-            mt = re.search(r"create (?:or replace )?table (?:if not exists )?\$\{catalog\}\.information_schema\.(\w+)\s*\((.*)\)", txt, re.S | re.I)
+    for k, txt, stmt_ in m.sql_templates():
+        if True:
+            mt = re.search(r"create (?:or replace )?table (?:if not exists )?\$\{\w+\}\.information_schema\.(\w+)\s*\((.*)\)", txt, re.S | re.I)
             if mt:
                 body = mt.group(2)
                 cols = [c.strip().split()[0] for c in body.split(",\n") if c.strip() and not c.strip().upper().startswith("PRIMARY")]
                 pk = re.search(r"PRIMARY KEY\s*\(([^)]*)\)", body, re.I)
-                tables[mt.group(1)] = {"cols": cols, "pk": [c.strip() for c in pk.group(1).split(",")] if pk else [], "stmt": m.const_stmts[k]}
+                tables[mt.group(1)] = {"cols": cols, "pk": [c.strip() for c in pk.group(1).split(",")] if pk else [], "stmt": stmt_}
     ctx.floor("side tables", len(tables), 2)
     writers = {"_fs_tables_ext": ("insert_table_comment_sql", ["CAT", "SCH", "TBL", "CMT"]),
                "_fs_columns_ext": ("insert_text_lengths_sql", ["CAT", "SCH", "TBL", Lst([__import__("fsa.values", fromlist=["Tup"]).Tup([Sym("COL", typ="str", truthy=True), Sym("SIZE", typ="int", truthy=True)])])])}
@@ -446,8 +443,7 @@ def rule_keys(ctx):
             ctx.violation("C09.c", "transforms", "information_schema_fs_tables_ext", f"join {pairs}", prog.mod("transforms").loc(t),
                           f"the join that adds table comments pairs {pairs}; the side table is keyed by catalog, schema and name: comments of "
                           f"equally named tables in other schemas/databases are mixed up")
-    cv = next((v.args[0].value for k, v in m.consts.items() if isinstance(v, ast.Call) and v.args and isinstance(v.args[0], ast.Constant)
-               and "_fs_columns_snowflake" in str(v.args[0].value)), None)
+    cv = next((t_ for _k, t_, _s in m.sql_templates() if "_fs_columns_snowflake" in t_ and "create" in t_.lower()), None)
     if cv and "_fs_columns_ext" in tables:
         pairs = set(re.findall(r"(ext_\w+)\s*=\s*columns\.(\w+)", cv))
         want = {("ext_table_catalog", "table_catalog"), ("ext_table_schema", "table_schema"), ("ext_table_name", "table_name"), ("ext_column_name", "column_name")}
@@ -554,11 +550,10 @@ def rule_type_names(ctx):
     Snowflake precision/length suffix (WHEN/THEN pairs of the templates against the oracle)."""
     prog = ctx.prog
     m = prog.mod("info_schema")
-    cv = next(((k, v.args[0].value) for k, v in m.consts.items() if isinstance(v, ast.Call) and v.args and isinstance(v.args[0], ast.Constant)
-               and "_fs_columns_snowflake" in str(v.args[0].value)), None)
+    cv = next(((k, t_, s_) for k, t_, s_ in m.sql_templates() if "_fs_columns_snowflake" in t_ and "create" in t_.lower()), None)
     if cv is None:
         raise AnalysisError("anchor vanished: columns view template")
-    k, txt = cv
+    k, txt, cv_stmt = cv
     first_case = txt[:txt.lower().find("as data_type")]
     pairs = dict(re.findall(r"when\s+columns\.data_type\s*=\s*'([^']+)'\s+then\s+'([^']+)'", first_case, re.I))
     dec = re.search(r"when\s+starts_with\(columns\.data_type,\s*'DECIMAL'\)\s+or\s+columns\.data_type\s*=\s*'BIGINT'\s+then\s+'(\w+)'", first_case, re.I)
@@ -569,28 +564,28 @@ def rule_type_names(ctx):
     for duck, want in {**VIEW_TYPE_ORACLE, "DECIMAL": "NUMBER"}.items():
         got = pairs.get(duck)
         ok = got == want
-        ctx.ob("C09.h", f"columns view: DuckDB {duck} is reported as {want}", ok, m.loc(m.const_stmts[k]), str(got))
+        ctx.ob("C09.h", f"columns view: DuckDB {duck} is reported as {want}", ok, m.loc(cv_stmt), str(got))
         if not ok:
-            ctx.violation("C09.h", "info_schema", k, f"data_type {duck} -> {got}", m.loc(m.const_stmts[k]),
+            ctx.violation("C09.h", "info_schema", k, f"data_type {duck} -> {got}", m.loc(cv_stmt),
                           f"information_schema.columns reports a DuckDB {duck} column as `{got}`; Snowflake's type name is {want} "
                           f"(DESCRIBE TABLE and SHOW build on this name)")
     # BIGINT precision 38 / radix 10
     okp = bool(re.search(r"when\s+columns\.data_type\s*=\s*'BIGINT'\s+then\s+38", txt, re.I)) and bool(
         re.search(r"when\s+columns\.data_type\s*=\s*'BIGINT'\s+then\s+10", txt, re.I))
-    ctx.ob("C09.h", "columns view: integers report precision 38, radix 10", okp, m.loc(m.const_stmts[k]))
+    ctx.ob("C09.h", "columns view: integers report precision 38, radix 10", okp, m.loc(cv_stmt))
     if not okp:
-        ctx.violation("C09.h", "info_schema", k, "integer precision/radix", m.loc(m.const_stmts[k]),
+        ctx.violation("C09.h", "info_schema", k, "integer precision/radix", m.loc(cv_stmt),
                       "integer columns must report numeric_precision 38 and radix 10 like Snowflake's NUMBER(38,0)")
     t = prog.mod("transforms")
-    dt = t.consts.get("SQL_DESCRIBE_TABLE")
-    if isinstance(dt, ast.Call) and dt.args and isinstance(dt.args[0], ast.Constant):
-        text = dt.args[0].value
+    dtt = next(((k_, t_, s_) for k_, t_, s_ in t.sql_templates() if re.search(r"WHEN\s+data_type\s*=", t_, re.I) and "describe" in k_.lower()), None)
+    if dtt is not None:
+        text, dt_stmt = dtt[1], dtt[2]
         for ty, rx in DESCRIBE_TYPE_ORACLE.items():
             mt = re.search(rf"WHEN\s+data_type\s*=\s*'{ty}'\s+THEN\s+(.*?)(?=WHEN|ELSE)", text, re.I | re.S)
             ok = bool(mt) and bool(re.search(rx, mt.group(1).replace("' || ", "").replace(" || '", "").replace("'", ""), re.I | re.S))
-            ctx.ob("C09.h", f"DESCRIBE TABLE renders {ty} with its Snowflake suffix", ok, t.loc(t.const_stmts["SQL_DESCRIBE_TABLE"]))
+            ctx.ob("C09.h", f"DESCRIBE TABLE renders {ty} with its Snowflake suffix", ok, t.loc(dt_stmt))
             if not ok:
-                ctx.violation("C09.h", "transforms", "SQL_DESCRIBE_TABLE", f"type text for {ty}", t.loc(t.const_stmts["SQL_DESCRIBE_TABLE"]),
+                ctx.violation("C09.h", "transforms", "SQL_DESCRIBE_TABLE", f"type text for {ty}", t.loc(dt_stmt),
                               f"DESCRIBE TABLE does not render {ty} columns the way Snowflake does (expected pattern {rx})")
 
 
